@@ -1,7 +1,7 @@
 (** C14 - serialized format, hashing inputs, key order and layers are stable.
     Statements only; proofs / vectors are in Golden.v, Codec.v, Key.v, KeyOrder.v. *)
 From Coq Require Import List NArith ZArith Bool.
-From Mast Require Import Prim Key Tree KeyOrder Codec Store Golden.
+From Mast Require Import Prim Key Tree KeyOrder Codec Store Golden DecRT.
 Import ListNotations.
 Local Open Scope N_scope.
 
@@ -41,6 +41,24 @@ Proof. reflexivity. Qed.
     decoded node gives the same bytes), 400 (key, branch factor, layer) rows over all built-in key
     kinds and branch factors 2,3,4,10,16,17,256, and 150 key comparisons, all produced once by the
     pinned code and checked against the model by vm_compute.  A finite check against frozen data. *)
+(** the narrower built-in integer types (int8/16/32, uint8/16/32) are layered like every integer and
+    ordered by their JSON text - a strict total order in which 10 comes before 9 (frozen behaviour:
+    DefaultKeyCompare has no case for them) *)
+Theorem C14_narrow_layer_is_int_layer : forall bf z, narrow_layer bf true z = klayer bf (KInt z).
+Proof. reflexivity. Qed.
+Theorem C14_narrow_order_eq : forall x y, (Z.abs x < Z.of_N ten40)%Z -> (Z.abs y < Z.of_N ten40)%Z ->
+  (narrow_cmp x y = Eq <-> x = y).
+Proof.
+  intros x y Hx Hy. unfold narrow_cmp. rewrite bytes_cmp_eq. split; [|intros ->; reflexivity].
+  intros E. pose proof (parse_dec_Z x Hx) as Px. rewrite E, (parse_dec_Z y Hy) in Px. inversion Px. reflexivity.
+Qed.
+Theorem C14_narrow_order_antisym : forall x y, narrow_cmp y x = CompOpp (narrow_cmp x y).
+Proof. intros x y. apply bytes_cmp_antisym. Qed.
+Theorem C14_narrow_order_trans : forall x y z, narrow_cmp x y = Lt -> narrow_cmp y z = Lt -> narrow_cmp x z = Lt.
+Proof. intros x y z. apply bytes_cmp_trans. Qed.
+Example C14_narrow_order_is_text_order : narrow_cmp 10 9 = Lt /\ narrow_cmp (-1) 0 = Lt /\ narrow_cmp 100 20 = Lt.
+Proof. vm_compute. repeat split; reflexivity. Qed.
+
 Theorem C14_golden_vectors :
   forallb check_node golden_nodes = true /\ forallb check_layer golden_layers = true /\
   forallb check_cmp golden_cmps = true /\
@@ -56,3 +74,7 @@ Print Assumptions C14_key_order.
 Print Assumptions C14_int_layer_abs.
 Print Assumptions C14_golden_vectors.
 Print Assumptions C14_crc64_ecma_vector.
+Print Assumptions C14_narrow_layer_is_int_layer.
+Print Assumptions C14_narrow_order_eq.
+Print Assumptions C14_narrow_order_antisym.
+Print Assumptions C14_narrow_order_trans.
